@@ -56,10 +56,12 @@ where
                 config.workdir()
             )
         });
-        if let Type::TextResource | Type::AnnotationDataSet = Self::typeinfo() {
+        let _mode_guard = if let Type::TextResource | Type::AnnotationDataSet = Self::typeinfo() {
             //introspection to detect whether type can do @include
-            config.set_serialize_mode(SerializeMode::NoInclude); //set standoff mode, what we're about the write is the standoff file
-        }
+            Some(config.set_serialize_mode(SerializeMode::NoInclude)) //set standoff mode (for this thread, until the guard is dropped), what we're about the write is the standoff file
+        } else {
+            None
+        };
         let compact = match config.dataformat {
             DataFormat::Json { compact } => compact,
             _ => {
@@ -76,23 +78,20 @@ where
             }
         };
         let writer = open_file_writer(filename, &config)?;
-        let result = self.to_json_writer(writer, compact);
-        if let Type::TextResource | Type::AnnotationDataSet = Self::typeinfo() {
-            //introspection to detect whether type can do @include
-            config.set_serialize_mode(SerializeMode::AllowInclude); //set standoff mode, what we're about the write is the standoff file
-        }
-        result
+        self.to_json_writer(writer, compact)
     }
 
     /// Serializes this structure to one string.
     /// The actual dataformat can be set via `config`, the default is STAM JSON.
     /// If `config` not not specified, an attempt to fetch the AnnotationStore's initial config is made
     fn to_json_string(&self, config: &Config) -> Result<String, StamError> {
-        if let Type::TextResource | Type::AnnotationDataSet = Self::typeinfo() {
+        let _mode_guard = if let Type::TextResource | Type::AnnotationDataSet = Self::typeinfo() {
             //introspection to detect whether type can do @include
-            config.set_serialize_mode(SerializeMode::NoInclude); //set standoff mode, what we're about the write is the standoff file
-        }
-        let result = match config.dataformat {
+            Some(config.set_serialize_mode(SerializeMode::NoInclude)) //set standoff mode (for this thread, until the guard is dropped), what we're about the write is the standoff file
+        } else {
+            None
+        };
+        match config.dataformat {
             DataFormat::Json { compact: false } => {
                 serde_json::to_string_pretty(&self).map_err(|e| {
                     StamError::SerializationError(format!(
@@ -114,12 +113,7 @@ where
                 Self::typeinfo(),
                 config.dataformat
             ))),
-        };
-        if let Type::TextResource | Type::AnnotationDataSet = Self::typeinfo() {
-            //introspection to detect whether type can do @include
-            config.set_serialize_mode(SerializeMode::AllowInclude); //set standoff mode, what we're about the write is the standoff file
         }
-        result
     }
 
     /// Serializes this structure to a JSON value
